@@ -562,6 +562,7 @@ var _ utils.PriorityQueue
 
 //@ spec vertexFits(v *hnswVertex) bool = v.level < 2147483648
 
+//@ spec saveable(ix *Hnsw) bool = wfGraph(ix) && wfShards(ix) && wfStored(ix) && ix.config != nil && ix.size <= 4294967295 && (forall s int :: 0 <= s && s < 16 ==> len(ix.vertices[s]) <= 4294967295) && (forall s int, id uuid.UUID :: 0 <= s && s < 16 && has(ix.vertices[s], id) ==> vertexFits(ix.vertices[s][id])) && (forall m hnswEdgeSet :: len(m) <= 4294967295)
 //@ func (*index.Hnsw).Save
 //@ props C08
 //@ trust check lossless
